@@ -28,6 +28,7 @@ FLOORS = {"expected_error": 40, "expected_ok": 20}
 HDR = '''from guppylang import guppy
 from guppylang.std.builtins import array, owned, result
 from guppylang.std.quantum import qubit, h, cx, discard, measure
+from guppylang.std.option import Option
 
 @guppy.struct
 class P:
@@ -38,6 +39,18 @@ class P:
 class QP:
     q: qubit
     k: int
+
+@guppy.declare
+def eat_arr0(a: array[int, 0] @owned) -> None: ...
+
+@guppy.declare
+def mk0() -> array[int, 0]: ...
+
+@guppy.declare
+def mko() -> Option[array[int, 2]]: ...
+
+@guppy.declare
+def eat_o(a: Option[array[int, 2]] @owned) -> None: ...
 
 @guppy.struct
 class SX:
@@ -87,7 +100,7 @@ class Model:
 
 NESTED_OWNED_LISTS = ["tx[0]", "tt[0][0]", "ta[0][0]", "ta[1][0]", "sx.xs", "ta"]
 
-VIOLATIONS = ["mutate-owned-nested", "mutate-owned-nested", "double-use", "use-after-consume", "leak", "mutate-owned-list", "mutate-owned-qubit-list",
+VIOLATIONS = ["mutate-owned-nested", "mutate-owned-nested", "double-use-affine", "double-use-affine", "double-use", "use-after-consume", "leak", "mutate-owned-list", "mutate-owned-qubit-list",
               "borrowed-consumed", "borrowed-array-length", "borrowed-array-type", "setattr-frozen",
               "return-dup", "borrowed-struct-field-type", "mutate-owned-struct-with-qubit"]
 
@@ -152,9 +165,14 @@ def build(rng):
         elif c < 0.975:
             lines.append("_m = tx[0][1] + tx[1] + tt[0][0][2] + tt[1] + ta[1][0][0] + ta[0][1] + sx.xs[0] + sx.p.a + bx[0][2]")
             kinds.append("read-nested")
-        else:
+        elif c < 0.99:
             lines.append(rng.choice(["bx[0][0] = 11", "bx[0].reverse()", "bx[0][1] = bx[0][2]"]))
             kinds.append("legal-mutate:borrowed-nested")
+        else:
+            k_ = len(lines)
+            lines += rng.choice([[f"zz{k_} = mk0()", f"eat_arr0(zz{k_})"], [f"oo{k_} = mko()", f"eat_o(oo{k_})"],
+                                 [f"oo{k_} = mko()"]])
+            kinds.append("single-use:affine-opaque")
     # ---- injected violation (mid-body kinds)
     pos = rng.randint(0, len(lines))
     inj = None
@@ -175,6 +193,13 @@ def build(rng):
     elif violation == "mutate-owned-list":
         src, _, _ = rng.choice(MUTATORS)
         inj = [src.format(L="xs")]
+    elif violation == "double-use-affine":
+        # non-copyable but droppable values (arrays, structs holding arrays) may be used at most once
+        # (values that stay opaque while tracing: an int array argument is unpacked into a Python
+        # list of copyable ints and may be re-packed any number of times, so it is not used here)
+        inj = rng.choice([["z0 = mk0()", "eat_arr0(z0)", "eat_arr0(z0)"], ["o0 = mko()", "eat_o(o0)", "eat_o(o0)"],
+                          ["eat_o(op)", "eat_o(op)"], ["o0 = mko()", "o1 = o0", "eat_o(o0)", "eat_o(o1)"]])
+        pos = len(lines)
     elif violation == "mutate-owned-nested":
         # containers reached *through* tuples / arrays / structs of an owned argument are frozen too
         L_ = rng.choice(NESTED_OWNED_LISTS)
@@ -260,7 +285,8 @@ def build(rng):
     text = (HDR + "@guppy.comptime\ndef body(q: qubit @owned, r: qubit, xs: array[int, 3] @owned, "
             "ys: array[int, 3], p: P, qp: QP @owned, rp: QP, qs: array[qubit, 2] @owned, "
             "tx: tuple[array[int, 3], int] @owned, tt: tuple[tuple[array[int, 3], bool], int] @owned, "
-            "ta: array[tuple[array[int, 2], int], 2] @owned, sx: SX @owned, bx: tuple[array[int, 3], int]) -> "
+            "ta: array[tuple[array[int, 2], int], 2] @owned, sx: SX @owned, bx: tuple[array[int, 3], int], "
+            "op: Option[array[int, 2]] @owned) -> "
             f"{ret_ty}:\n{body}")
     return text, violation, kinds
 
